@@ -23,6 +23,8 @@ print("| id | what breaks | needs to manifest | caught by | history |\n|---|---|
 for d in sorted(glob.glob(os.path.join(HERE, "seeded", "*"))):
     m = json.load(open(os.path.join(d, "meta.json")))
     caught = ", ".join(f"{c}" for c, r in m["checks"].items() if r["verdict"] == "VIOLATION") or "-"
+    if m.get("obsolete"):
+        m["history"] = (m.get("history", "") + " OBSOLETE: " + m["obsolete"]).strip()
     missed = ", ".join(f"{c}" for c, r in m["checks"].items() if r["verdict"] != "VIOLATION")
     cut = lambda t, n: (t if len(t) <= n else t[:n].rsplit(" ", 1)[0] + " ...").replace("|", "/")  # noqa: E731
     print(f"| {os.path.basename(d)} | {cut(m.get('what_breaks', ''), 330)} | {cut(m.get('needs_to_manifest', ''), 260)} | {caught}{' (silent: ' + missed + ')' if missed else ''} | {m.get('history', 'caught by the first version')} |")
